@@ -11,10 +11,17 @@
    transforms, copy_within) to the specification -- decided on every run by whole-stream correspondence
    implementation = Spec.VP8L.decode on seeded random *legal streams* (harness c01: any transform order, cache 0..11 bits,
    meta codes, simple/normal codes up to 15 bits, all distance codes, sizes up to 16384), and natively against libwebp.
-   Component lemmas of the Rust-mirroring model (bit reader, prefix tables) are added by Properties of the lossless model
-   when present (see evidence: theorem list). *)
+   Component theorems of the Rust-mirroring model (Model/BitReader, Huffman, Lossless: tied to the code on every run by the
+   c01model correspondence through hooks) -- second half of this file:
+     * the bit reader delivers the stream's bits LSB first whatever refill path it takes (read_bits = s mod 2^n);
+     * simple prefix codes: one symbol costs 0 bits; two symbols: the smaller gets bit 0, transmission order irrelevant,
+       equal symbols collapse (defect F3 repaired);
+     * the backward-reference copy (16-byte copy_within trick and scalar tail) is the overlapping LZ77 copy
+       out[k] = out[k - 4 dist] on the copied range, touches nothing before it nor from three pixels after it on. *)
 From Coq Require Import ZArith List.
 From WebP Require Import Gen.Tables Gen.Kernels Lib.ZBits Spec.VP8L Proofs.VP8L_kernels.
+From WebP Require Lib.Res Lib.Arr Model.LosslessLib Model.BitReader Model.Huffman Model.Lossless
+  Proofs.Lossless_BitReader Proofs.Lossless_HuffmanSafe Proofs.Lossless_HuffmanSimple Proofs.Lossless_CopyWithin.
 Import ListNotations.
 Open Scope Z_scope.
 
@@ -56,3 +63,45 @@ Qed.
 Example spec_decodes_a_stream :
   decode_rgba [0x2f; 0; 0; 0; 0; 0x88; 0x88; 0x08] <> None /\ decode_rgba [0x2f; 0; 0] = None.
 Proof. split; vm_compute; congruence. Qed.
+
+(* ---------------- Rust-mirroring model: bit reader, simple codes, backward-reference copy ---------------- *)
+Module M.
+  Import Model.LosslessLib Model.BitReader Model.Huffman Model.Lossless Proofs.Lossless_BitReader
+    Proofs.Lossless_HuffmanSafe Proofs.Lossless_HuffmanSimple Proofs.Lossless_CopyWithin.
+
+  (* [R s r]: reader state r (64-bit reservoir + unread bytes) represents the unread bit stream s (an integer, LSB first) *)
+  Theorem bitreader_initial : forall d sch, Forall byte d -> R (V d) (init d sch).
+  Proof. exact R_init. Qed.
+
+  Theorem bitreader_read_bits : forall s r tb num, R s r -> 0 <= num <= 32 -> num <= tb ->
+    (exists v r', read_bits r tb num = Res.Ok (v, r') /\ v = s mod 2 ^ num /\ R (Z.shiftr s num) r') \/
+    read_bits r tb num = Res.Err Res.EBitStreamError.
+  Proof. exact read_bits_no_panic. Qed.
+
+  Theorem bitreader_fill : forall s r r', R s r -> fill r = Res.Ok r' -> R s r' /\ (56 <= nbits r' \/ data r' = []).
+  Proof. exact fill_post. Qed.
+
+  Theorem bitreader_peek : forall s r k, R s r -> 0 <= k -> (k <= nbits r \/ data r = []) -> (peek_full r) mod 2 ^ k = s mod 2 ^ k.
+  Proof. exact peek_full_low. Qed.
+
+  Theorem simple_code_one_symbol : forall s br, read_symbol (build_single_node s) br = Res.Ok (s, br).
+  Proof. exact read_symbol_single. Qed.
+
+  Theorem simple_code_two_symbols : forall s r a b, R s r -> 1 <= nbits r -> 0 <= a < 65536 -> 0 <= b < 65536 -> a <> b ->
+    exists r', read_symbol (simple_two_symbols a b) r = Res.Ok (if Z.testbit s 0 then Z.max a b else Z.min a b, r') /\ R (Z.shiftr s 1) r'.
+  Proof. exact read_symbol_simple_two. Qed.
+
+  Theorem simple_code_order_irrelevant : forall a b,
+    simple_two_symbols a b = simple_two_symbols b a /\ simple_two_symbols a a = build_single_node a.
+  Proof. intros a b. split; [apply simple_two_symbols_sym | apply simple_two_symbols_equal]. Qed.
+
+  Theorem backward_reference_copy : forall data index dist length num_values,
+    zlen data = 4 * num_values -> 2 <= dist <= index -> 1 <= length -> index + length <= num_values ->
+    exists data', copy_backref data index dist length num_values = Res.Ok data' /\ lz_copied data data' index dist length.
+  Proof. exact copy_backref_spec. Qed.
+
+  Theorem backward_reference_copy_unique : forall data d1 d2 index dist length, 1 <= dist <= index ->
+    lz_copied data d1 index dist length -> lz_copied data d2 index dist length ->
+    forall k, 0 <= k < 4 * (index + length) -> az d1 k = az d2 k.
+  Proof. exact lz_copied_unique. Qed.
+End M.
